@@ -303,6 +303,10 @@ Lemma l_stat_soft c g : soft g ->
   ((o_status (g c) = SActive -> o_rx (g c) = true) /\ (o_status (g c) = CWait -> is_search (g c) -> o_rx (g c) = true) /\ (o_status (g c) = SDone -> has_doneP (g c)) /\ (stream_status (g c) -> is_search (g c))).
 Proof. intros Hg. rewrite (soft_search g c Hg), (soft_done g c Hg), (soft_sstat g c Hg). destruct (Hg c) as (_ & _ & -> & -> & _). tauto. Qed.
 
+Lemma In_alookup_some k o m : In (k, o) m -> exists o', alookup k m = Some o'.
+Proof. unfold alookup. induction m as [|[k' v] m IH]; cbn [In find fst]; [intros []|]. intros [H|H].
+  - injection H as -> ->. rewrite Z.eqb_refl. eexists; reflexivity.
+  - destruct (Z.eqb k' k); [eexists; reflexivity|now apply IH]. Qed.
 Ltac de_solve := repeat match goal with |- context [match alookup ?k ?m with _ => _ end] => destruct (alookup k m) end; reflexivity.
 (* ---------- DrvScrub ---------- *)
 Lemma Lin_scrub s : Lin s -> Lin (step s DrvScrub).
@@ -579,38 +583,80 @@ Proof.
         -- intros ->. right. right. destruct (Wq eq_refl) as [H|H]; [assumption|]. now elim H.
   - (* KAbandon *) intros _. rename target into t.
     set (s0 := s <| opq := q |> <| wout ::= fun w => w ++ [(o_mid c, KAbandon t)] |>).
-    set (s1 := drop_entry (rmap s0) t drop_reply s0 <| rmap ::= aremove t |>).
-    set (s2 := drop_entry (smap s1) t close_chan s1 <| smap ::= aremove t |>).
-    set (s4 := s2 <| inuse ::= rem (o_mid c) |> <| inuse ::= rem t |>).
-    destruct (fill_reply_core None c) as (f1 & f2 & f3 & f4 & f5).
-    assert (G2 : forall o', exists g, soft g /\ getop s4 o' = option_map g (getop s o') /\ (forall c0, o_reply (g c0) <> o_reply c0 -> In (t, o') (rmap s))).
-    { intros o'. change (getop s4 o') with (getop (drop_entry (smap s1) t close_chan s1) o'). rewrite getop_drop_entry.
-      change (getop s1 o') with (getop (drop_entry (rmap s0) t drop_reply s0) o'). rewrite getop_drop_entry.
-      change (getop s0 o') with (getop s o'). change (rmap s0) with (rmap s).
-      destruct (alookup t (rmap s)) as [orr|] eqn:Er; [destruct (Nat.eqb o' orr) eqn:Eo|];
-      (destruct (alookup t (smap s1)) as [os|]; [destruct (Nat.eqb o' os)|]).
-      all: try (exists (fun c => close_chan (drop_reply c)); split; [apply soft_comp; [apply soft_close|apply soft_drop]|split; [now destruct (getop s o')|intros; apply Nat.eqb_eq in Eo; subst; now apply alookup_In]]).
-      all: try (exists drop_reply; split; [apply soft_drop|split; [reflexivity|intros; apply Nat.eqb_eq in Eo; subst; now apply alookup_In]]).
-      all: try (exists close_chan; split; [apply soft_close|split; [reflexivity|intros c0 Hne; now elim Hne]]).
-      all: exists (fun c => c); (split; [apply soft_id|split; [now destruct (getop s o')|intros c0 Hne; now elim Hne]]). }
-    assert (Rm : rmap s4 = aremove t (rmap s)) by (unfold s4, s2, s1, drop_entry; destruct (alookup t (rmap s0)); de_solve).
-    assert (Sm : smap s4 = aremove t (smap s)) by (unfold s4, s2, s1, drop_entry; destruct (alookup t (rmap s0)); de_solve).
-    assert (Iu : inuse s4 = rem t (rem (o_mid c) (inuse s))) by (unfold s4, s2, s1, drop_entry; destruct (alookup t (rmap s0)); de_solve).
-    assert (Sq : scrubq s4 = scrubq s) by (unfold s4, s2, s1, drop_entry; destruct (alookup t (rmap s0)); de_solve).
-    assert (Oq : opq s4 = q) by (unfold s4, s2, s1, drop_entry; destruct (alookup t (rmap s0)); de_solve).
-    clearbody s4. clear s2 s1 s0.
-    destruct (G2 o) as (g0 & Hg0 & Gc0 & Gr0). destruct (Hg0 c) as (d1 & d2 & d3 & d4 & d5 & d6).
-    destruct (fill_reply_core None (g0 c)) as (h1 & h2 & h3 & h4 & h5).
-    eapply (Lin_pop s _ o q c (fill_reply None (g0 c))); try eassumption; try congruence.
-    * intros o' Hne. destruct (G2 o') as (g & Hg & Gc & Gr). exists g. split; [assumption|]. split; [now rewrite getop_updop_ne|].
-      intros c0 H. exists t. split; [now apply (Gr c0)|]. intros o2. cbn [rmap set updop]. rewrite Rm, In_arem. tauto.
-    * rewrite getop_updop_eq, Gc0, Hc. reflexivity.
-    * intros k o'. cbn [rmap set updop]. rewrite Rm, In_arem. tauto.
-    * intros k o'. cbn [smap set updop]. rewrite Sm, In_arem. tauto.
-    * intros i. cbn [inuse set updop]. rewrite Iu, !In_rem. tauto.
-    * intros k. cbn [rmap set updop]. rewrite Rm, In_arem. intros [_ H]. now elim (Nr k).
-    * intros k. cbn [smap set updop]. rewrite Sm, In_arem. intros [_ H]. now elim (Ns k).
-    * intros i o'. cbn [inuse rmap smap set updop]. rewrite Iu, Rm, Sm, !In_rem, !In_arem. tauto.
+    destruct (abandon_hit s0 t) eqn:Eh.
+    + (* a routing entry for t existed: t is released as well *)
+      set (s1 := drop_entry (rmap s0) t drop_reply s0 <| rmap ::= aremove t |>).
+      set (s2 := drop_entry (smap s1) t close_chan s1 <| smap ::= aremove t |>).
+      set (s4 := s2 <| inuse ::= rem (o_mid c) |> <| inuse ::= rem t |>).
+      destruct (fill_reply_core None c) as (f1 & f2 & f3 & f4 & f5).
+      assert (G2 : forall o', exists g, soft g /\ getop s4 o' = option_map g (getop s o') /\ (forall c0, o_reply (g c0) <> o_reply c0 -> In (t, o') (rmap s))).
+      { intros o'. change (getop s4 o') with (getop (drop_entry (smap s1) t close_chan s1) o'). rewrite getop_drop_entry.
+        change (getop s1 o') with (getop (drop_entry (rmap s0) t drop_reply s0) o'). rewrite getop_drop_entry.
+        change (getop s0 o') with (getop s o'). change (rmap s0) with (rmap s).
+        destruct (alookup t (rmap s)) as [orr|] eqn:Er; [destruct (Nat.eqb o' orr) eqn:Eo|];
+        (destruct (alookup t (smap s1)) as [os|]; [destruct (Nat.eqb o' os)|]).
+        all: try (exists (fun c => close_chan (drop_reply c)); split; [apply soft_comp; [apply soft_close|apply soft_drop]|split; [now destruct (getop s o')|intros; apply Nat.eqb_eq in Eo; subst; now apply alookup_In]]).
+        all: try (exists drop_reply; split; [apply soft_drop|split; [reflexivity|intros; apply Nat.eqb_eq in Eo; subst; now apply alookup_In]]).
+        all: try (exists close_chan; split; [apply soft_close|split; [reflexivity|intros c0 Hne; now elim Hne]]).
+        all: exists (fun c => c); (split; [apply soft_id|split; [now destruct (getop s o')|intros c0 Hne; now elim Hne]]). }
+      assert (Rm : rmap s4 = aremove t (rmap s)) by (unfold s4, s2, s1, drop_entry; destruct (alookup t (rmap s0)); de_solve).
+      assert (Sm : smap s4 = aremove t (smap s)) by (unfold s4, s2, s1, drop_entry; destruct (alookup t (rmap s0)); de_solve).
+      assert (Iu : inuse s4 = rem t (rem (o_mid c) (inuse s))) by (unfold s4, s2, s1, drop_entry; destruct (alookup t (rmap s0)); de_solve).
+      assert (Sq : scrubq s4 = scrubq s) by (unfold s4, s2, s1, drop_entry; destruct (alookup t (rmap s0)); de_solve).
+      assert (Oq : opq s4 = q) by (unfold s4, s2, s1, drop_entry; destruct (alookup t (rmap s0)); de_solve).
+      clearbody s4. clear Eh. clear s2 s1 s0.
+      destruct (G2 o) as (g0 & Hg0 & Gc0 & Gr0). destruct (Hg0 c) as (d1 & d2 & d3 & d4 & d5 & d6).
+      destruct (fill_reply_core None (g0 c)) as (h1 & h2 & h3 & h4 & h5).
+      eapply (Lin_pop s _ o q c (fill_reply None (g0 c))); try eassumption; try congruence.
+      * intros o' Hne. destruct (G2 o') as (g & Hg & Gc & Gr). exists g. split; [assumption|]. split; [now rewrite getop_updop_ne|].
+        intros c0 H. exists t. split; [now apply (Gr c0)|]. intros o2. cbn [rmap set updop]. rewrite Rm, In_arem. tauto.
+      * rewrite getop_updop_eq, Gc0, Hc. reflexivity.
+      * intros k o'. cbn [rmap set updop]. rewrite Rm, In_arem. tauto.
+      * intros k o'. cbn [smap set updop]. rewrite Sm, In_arem. tauto.
+      * intros i. cbn [inuse set updop]. rewrite Iu, !In_rem. tauto.
+      * intros k. cbn [rmap set updop]. rewrite Rm, In_arem. intros [_ H]. now elim (Nr k).
+      * intros k. cbn [smap set updop]. rewrite Sm, In_arem. intros [_ H]. now elim (Ns k).
+      * intros i o'. cbn [inuse rmap smap set updop]. rewrite Iu, Rm, Sm, !In_rem, !In_arem. tauto.
+
+    + (* no routing entry for t: only the Abandon's own id is released *)
+      assert (Nhr : forall o', ~ In (t, o') (rmap s)).
+      { intros o' H. unfold abandon_hit in Eh. change (rmap s0) with (rmap s) in Eh. destruct (In_alookup_some _ _ _ H) as (x & Hx). now rewrite Hx in Eh. }
+      assert (Nhs : forall o', ~ In (t, o') (smap s)).
+      { intros o' H. unfold abandon_hit in Eh. change (smap s0) with (smap s) in Eh. destruct (In_alookup_some _ _ _ H) as (x & Hx). rewrite Hx in Eh. now destruct (alookup t (rmap s0)). }
+      set (s1 := drop_entry (rmap s0) t drop_reply s0 <| rmap ::= aremove t |>).
+      set (s2 := drop_entry (smap s1) t close_chan s1 <| smap ::= aremove t |>).
+      set (s4 := s2 <| inuse ::= rem (o_mid c) |>).
+      destruct (fill_reply_core None c) as (f1 & f2 & f3 & f4 & f5).
+      assert (G2 : forall o', exists g, soft g /\ getop s4 o' = option_map g (getop s o') /\ (forall c0, o_reply (g c0) <> o_reply c0 -> In (t, o') (rmap s))).
+      { intros o'. change (getop s4 o') with (getop (drop_entry (smap s1) t close_chan s1) o'). rewrite getop_drop_entry.
+        change (getop s1 o') with (getop (drop_entry (rmap s0) t drop_reply s0) o'). rewrite getop_drop_entry.
+        change (getop s0 o') with (getop s o'). change (rmap s0) with (rmap s).
+        destruct (alookup t (rmap s)) as [orr|] eqn:Er; [destruct (Nat.eqb o' orr) eqn:Eo|];
+        (destruct (alookup t (smap s1)) as [os|]; [destruct (Nat.eqb o' os)|]).
+        all: try (exists (fun c => close_chan (drop_reply c)); split; [apply soft_comp; [apply soft_close|apply soft_drop]|split; [now destruct (getop s o')|intros; apply Nat.eqb_eq in Eo; subst; now apply alookup_In]]).
+        all: try (exists drop_reply; split; [apply soft_drop|split; [reflexivity|intros; apply Nat.eqb_eq in Eo; subst; now apply alookup_In]]).
+        all: try (exists close_chan; split; [apply soft_close|split; [reflexivity|intros c0 Hne; now elim Hne]]).
+        all: exists (fun c => c); (split; [apply soft_id|split; [now destruct (getop s o')|intros c0 Hne; now elim Hne]]). }
+      assert (Rm : rmap s4 = aremove t (rmap s)) by (unfold s4, s2, s1, drop_entry; destruct (alookup t (rmap s0)); de_solve).
+      assert (Sm : smap s4 = aremove t (smap s)) by (unfold s4, s2, s1, drop_entry; destruct (alookup t (rmap s0)); de_solve).
+      assert (Iu : inuse s4 = rem (o_mid c) (inuse s)) by (unfold s4, s2, s1, drop_entry; destruct (alookup t (rmap s0)); de_solve).
+      assert (Sq : scrubq s4 = scrubq s) by (unfold s4, s2, s1, drop_entry; destruct (alookup t (rmap s0)); de_solve).
+      assert (Oq : opq s4 = q) by (unfold s4, s2, s1, drop_entry; destruct (alookup t (rmap s0)); de_solve).
+      clearbody s4. clear Eh. clear s2 s1 s0.
+      destruct (G2 o) as (g0 & Hg0 & Gc0 & Gr0). destruct (Hg0 c) as (d1 & d2 & d3 & d4 & d5 & d6).
+      destruct (fill_reply_core None (g0 c)) as (h1 & h2 & h3 & h4 & h5).
+      eapply (Lin_pop s _ o q c (fill_reply None (g0 c))); try eassumption; try congruence.
+      * intros o' Hne. destruct (G2 o') as (g & Hg & Gc & Gr). exists g. split; [assumption|]. split; [now rewrite getop_updop_ne|].
+        intros c0 H. exists t. split; [now apply (Gr c0)|]. intros o2. cbn [rmap set updop]. rewrite Rm, In_arem. tauto.
+      * rewrite getop_updop_eq, Gc0, Hc. reflexivity.
+      * intros k o'. cbn [rmap set updop]. rewrite Rm, In_arem. tauto.
+      * intros k o'. cbn [smap set updop]. rewrite Sm, In_arem. tauto.
+      * intros i. cbn [inuse set updop]. rewrite Iu, !In_rem. tauto.
+      * intros k. cbn [rmap set updop]. rewrite Rm, In_arem. intros [_ H]. now elim (Nr k).
+      * intros k. cbn [smap set updop]. rewrite Sm, In_arem. intros [_ H]. now elim (Ns k).
+      * intros i o'. cbn [inuse rmap smap set updop]. rewrite Iu, Rm, Sm, !In_rem, !In_arem. intros [Hi1 Hi2].
+        split; [intros H; split; [intros ->; exact (Nhr _ H)|exact H]|]. split; [intros H; split; [intros ->; exact (Nhs _ H)|exact H]|]. intros ->. now elim Hi1.
+
   - (* KUnbind *) intros H. discriminate H.
 Qed.
 
